@@ -279,3 +279,21 @@ def guards_of(p: State, ev: Event) -> List[Tuple[Term, bool]]:
         if n.lineno <= ln <= (n.end_lineno or n.lineno):
             out.append((e.data[0], e.data[1]))
     return out
+
+
+def resolve_stores(p: State, idx: int, t: Term, base: Term = SELF, depth: int = 4) -> Term:
+    """Replace reads ``base.a`` inside ``t`` by the value most recently stored to ``base.a``
+    before event ``idx`` on this path (flow-sensitive view of attribute state)."""
+    last: Dict[str, Tuple[int, Term]] = {}
+    for i, e in enumerate(p.events[:idx]):
+        if e.kind == 'setattr' and e.data[0] == base:
+            last[e.data[1]] = (i, e.data[2])
+
+    def sub(x, d):
+        if not isinstance(x, tuple):
+            return x
+        if x and x[0] == 'attr' and x[1] == base and x[2] in last and d > 0:
+            i, v = last[x[2]]
+            return resolve_stores(p, i, v, base, d - 1)
+        return tuple(sub(y, d) for y in x)
+    return sub(t, depth)
